@@ -341,7 +341,8 @@ func c45Gen(seed uint64, run int, tier string, prop string) *Case {
 	for i := 0; i < n; i++ {
 		ci := r.Intn(nconn)
 		var op Op
-		qt := uint8(r.Pick(0, qDir, qDir))
+		// a qid type may carry more bits than "directory" (append-only, exclusive, mounted, temporary, symlink)
+		qt := uint8(r.Pick(0, qDir, qDir, 0, qDir, qDir, qDir|0x40, qDir|0x20, qDir|0x10, qDir|0x04, 0x40, 0x02, 0x44))
 		serr := r.Pct(20)
 		if len(m.conns[ci].fids) == 0 && r.Pct(70) {
 			op = tOp(ci, Tattach, pickFid(ci, 2), NOFID, int64(r.Intn(4)), 0, r.Pct(10), 0, qDir, 0, false)
@@ -375,7 +376,7 @@ func c45Gen(seed uint64, run int, tier string, prop string) *Case {
 				op = tOp(ci, Topen, pickFid(ci, 1), 0, int64(r.Pick(0, 1, 2, 3, 16, 17, 64)), 0, serr, 0, 0, 0, false)
 			case 7:
 				perm := int64(r.Pick(0o644, 0o755, 0x80000000|0o755, 0x02000000, 0x01000000, 0x00800000, 0x00200000, 0x00100000, 0x08000000|0o644, 0x40000000|0o644, 0x20000000|0o600, 0x04000000|0o644)) // also the bits that mean nothing to the framework: DMAUTH, DMAPPEND, DMEXCL, DMTMP
-				op = tOp(ci, Tcreate, pickFid(ci, 1), 0, int64(r.Pick(0, 1, 2, 3)), perm, serr, 0, uint8(r.Pick(0, 0, qDir)), 0, false)
+				op = tOp(ci, Tcreate, pickFid(ci, 1), 0, int64(r.Pick(0, 1, 2, 3)), perm, serr, 0, uint8(r.Pick(0, 0, qDir, 0x40, qDir|0x04)), 0, false)
 			case 8:
 				op = tOp(ci, Tread, pickFid(ci, 1), 0, 0, counts[r.Intn(len(counts))], serr, 0, 0, int64(r.Intn(1000)), false)
 			case 9:
@@ -691,6 +692,7 @@ func c45Exec(x *Ctx) {
 					}
 					if in.Op == "attach" && userID(in.FidP) >= 0 && v.checkUsr && userID(in.FidP) != v.user && model.dotu {
 						report("a4-user", "%s: attach bound user %d, the client named %d", desc, userID(in.FidP), v.user)
+						report("b9-user", "%s: the attach was forwarded with user %d, the client named %d", desc, userID(in.FidP), v.user)
 					}
 					// identity: the same *SrvFid as when the number was bound
 					if p, ok := ptrs[ci][uint32(op.a(fFid))]; ok && srcFid != nil && in.FidP != p {
